@@ -5,7 +5,10 @@
 //! case := op op …      I | E | L<ps> | J<f>:<ps> | X<f> | R<h>      <ps> := - | p,p,…
 //!         I = engine.insert, E = engine.insert_explicit, L = engine.insert_logical(premises),
 //!         J = tms_mut().add_logical_justification(f, premises), X = tms_mut().add_explicit_justification(f),
-//!         R = engine.retract(h).  Handles are the numbers working memory hands out (1, 2, …); they
+//!         R = engine.retract(h), C = working_memory_mut().clear_modification_tracking() (the public maintenance call
+//!         "after propagation" of the pending modified / retracted tracking sets: it inserts and retracts nothing, so its
+//!         step — result `c` — must repeat the previous step's sets; the driver checks that and removes the step before
+//!         the model / the Spec oracle see the history).  Handles are the numbers working memory hands out (1, 2, …); they
 //!         are decimal numbers of any length and premise lists have any length (`L12,7,30,1,2,44,9,10`).
 //! obs  := step;step;…  step := res/present/logical/explicit/valid/stats
 //!         res = h<k> | u | ok:<cascade> | err ; the four sets are over the universe 1..=K
@@ -22,6 +25,7 @@ enum Op {
     J(u64, Vec<u64>),
     X(u64),
     R(u64),
+    C,
 }
 
 fn parse_op(t: &str) -> Option<Op> {
@@ -29,6 +33,7 @@ fn parse_op(t: &str) -> Option<Op> {
     Some(match k {
         "I" if rest.is_empty() => Op::I,
         "E" if rest.is_empty() => Op::E,
+        "C" if rest.is_empty() => Op::C,
         "L" => Op::L(parse_nums(rest)?),
         "J" => {
             let (f, ps) = rest.split_once(':')?;
@@ -48,6 +53,7 @@ fn show_op(o: &Op) -> String {
         Op::J(f, ps) => format!("J{}:{}", f, join_nums(ps)),
         Op::X(f) => format!("X{}", f),
         Op::R(h) => format!("R{}", h),
+        Op::C => "C".into(),
     }
 }
 
@@ -71,6 +77,7 @@ fn universe(ops: &[Op]) -> u64 {
             }
             Op::J(f, ps) => mx = mx.max(*f).max(ps.iter().copied().max().unwrap_or(0)),
             Op::X(f) | Op::R(f) => mx = mx.max(*f),
+            Op::C => {}
         }
     }
     (ins + 1).max(mx)
@@ -120,6 +127,10 @@ fn exec(case: &str) -> String {
                 }
                 Err(_) => "err".to_string(),
             },
+            Op::C => {
+                eng.working_memory_mut().clear_modification_tracking();
+                "c".to_string()
+            }
         };
         let mut flags = String::new();
         let present: Vec<u64> = (1..=k).filter(|i| eng.working_memory().get(&FactHandle::new(*i)).is_some()).collect();
@@ -311,6 +322,7 @@ impl Sim {
             }
             Op::J(f, ps) => self.justs.push((*f, false, ps.clone())),
             Op::X(f) => self.justs.push((*f, true, vec![])),
+            Op::C => {}
             Op::R(h) => {
                 if !self.live.contains(h) {
                     return;
@@ -985,6 +997,59 @@ fn wide_justifications(rng: &mut Rng, tier: &str, out: &mut Vec<String>) {
     }
 }
 
+/// histories with the maintenance call `C` (clear_modification_tracking) in them: liveness, the TMS sets and every
+/// later operation must not depend on whether / when the pending-change tracking sets were cleared. The named
+/// shapes with `C` after every retraction (then operations on the facts that are gone: a second retraction must be an
+/// error, a justification naming them supports nothing), and random histories (well-formed and not) with `C`
+/// sprinkled in at random places — directly after a retraction 2 times in 3 — followed by more operations.
+fn maintenance_calls(rng: &mut Rng, n: usize, out: &mut Vec<String>) {
+    for shape in [
+        "I L1 R1 C",                   // one cascade, then clear
+        "I R1 C R1",                   // a second retraction after the clear is still an error
+        "I I L1 L3,2 R1 C L2 R3 R4 R2", // the round-3 demo: chain + shared premise, operations on gone facts after
+        "I L1 L2 R2 C R1 C",           // retraction of a derived fact, clear, then of its premise
+        "I I L1 J3:2 R1 C R2 C",       // two justifications: survives the first retraction, not the second
+        "C I C L1 C R1 C C",           // clear on an empty / unchanged memory
+        "I L1 R1 C I L1,3 L4 R3 C",    // a justification recorded after the clear that names a gone fact
+    ] {
+        out.push(shape.to_string());
+    }
+    for i in 0..n / 4 {
+        let wf = i % 8 != 7;
+        let base = random_history(rng, 10, 7, wf);
+        let mut ops = Vec::new();
+        let mut any_r = false;
+        for o in &base {
+            let is_r = matches!(o, Op::R(_));
+            ops.push(o.clone());
+            if (is_r && rng.chance(2, 3)) || rng.chance(1, 10) {
+                ops.push(Op::C);
+                any_r |= is_r;
+            }
+        }
+        if !any_r {
+            // end with a retraction of a live fact (if there is one) and a clear
+            let live = replay_live(&ops);
+            if !live.is_empty() {
+                ops.push(Op::R(*rng.pick(&live)));
+            }
+            ops.push(Op::C);
+        }
+        // afterwards: touch facts that are gone, and go on working
+        let n_created = count_created(&ops);
+        for _ in 0..rng.range(0, 3) {
+            let live = replay_live(&ops);
+            match rng.below(4) {
+                0 if n_created > 0 => ops.push(Op::R(rng.range(1, n_created))),
+                1 if !live.is_empty() => ops.push(Op::L(pick_live(rng, &live, 2))),
+                2 if !live.is_empty() => ops.push(Op::R(*rng.pick(&live))),
+                _ => ops.push(Op::I),
+            }
+        }
+        out.push(show_case(&ops));
+    }
+}
+
 fn gen(rng: &mut Rng, n: usize, tier: &str) -> Vec<String> {
     let mut out = Vec::new();
     let (maxlen, maxf) = if tier == "thorough" { (6usize, 4u64) } else { (5usize, 4u64) };
@@ -995,6 +1060,7 @@ fn gen(rng: &mut Rng, n: usize, tier: &str) -> Vec<String> {
         let ops = random_history(rng, 10, 7, wf);
         out.push(show_case(&ops));
     }
+    maintenance_calls(rng, n, &mut out);
     // beyond the small bound (after the random part, so the cases above do not depend on these)
     deep_chains(rng, tier, &mut out);
     long_sessions(rng, tier, &mut out);
@@ -1066,6 +1132,7 @@ fn remove_facts(ops: &[Op], gone: &[u64]) -> Vec<Op> {
                     out.push(Op::R(map(*h)));
                 }
             }
+            Op::C => out.push(Op::C),
         }
     }
     out
